@@ -228,6 +228,10 @@ def firstBad {R : Type} (cfg : Cfg) (g : Dag) (f : Nat → List R → Option R) 
 def State.final {R : Type} (g : Dag) (s : State R) : Prop :=
   s.closed = true ∧ ∀ a, a ≤ g.n → s.phase a = .done
 
+/-- `final`, decidable form (used by the trace driver) -/
+def State.finalB {R : Type} (g : Dag) (s : State R) : Bool :=
+  s.closed && (List.range (g.n + 1)).all (fun a => decide (s.phase a = .done))
+
 /-! ### bottom-up evaluation of the graph -/
 
 /-- `evalF k a`: the result of `a`, computed with recursion depth `k` -/
